@@ -199,7 +199,8 @@ impl Property for C04 {
          Registry. Oracle: independent 0.0.4 parser -> record sequence must equal the sequence computed from the input; plus \
          encode/encode_utf8/encode_to_string agreement, append-only, and concatenation metamorphic checks; in 30% of cases an encode \
          into a writer that refuses everything after a generated byte offset must return Err and the next encode on the same thread \
-         must again produce exactly the same bytes. Non-trivial: some help \
+         must again produce exactly the same bytes, and in 25% a writer that accepts at most 1-64 bytes per call (plain or \
+         vectored) must receive exactly the same bytes. Non-trivial: some help \
          or label value contains one of \\ \" LF CR or a non-ASCII char, or a non-finite/subnormal/>=1e21 value, or a \
          histogram/summary. Distinct = hash of decoded choices."
     }
@@ -277,6 +278,24 @@ impl Property for C04 {
                 text
             );
             rep.class("failed-encode-then-encode-again");
+        }
+        // a writer that takes only part of what it is offered (short writes are legal for io::Write): nothing may be lost
+        if src.chance(64) && !new_bytes.is_empty() {
+            let max = [1usize, 2, 3, 5, 7, 16, 64][src.below(7)];
+            let vectored = src.chance(128);
+            let mut w = crate::iohelp::ShortWriter { max, vectored, got: vec![], calls: 0 };
+            let r = enc.encode(&lib, &mut w);
+            ensure!(r.is_ok(), "encode-error", "encode into a writer that accepts at most {} bytes per call: {:?}", max, r);
+            ensure!(
+                w.got == new_bytes,
+                "bytes-lost-on-short-writes",
+                "a writer that accepts at most {} bytes per call (write_vectored {}) received {:?} instead of {:?}",
+                max,
+                if vectored { "fills across slices" } else { "default" },
+                String::from_utf8_lossy(&w.got),
+                text
+            );
+            rep.class("short-writes");
         }
         // concatenation: a ++ b == a then b
         if lib.len() >= 2 {
